@@ -523,6 +523,22 @@ class Machine(RuleBasedStateMachine):
         self.run.cls("rule:rebuild")
 
     @rule(rnd=st.randoms(use_true_random=True), e=st.integers(0, 2))
+    def pow_of_constants(self, rnd, e):
+        """Pow over two constants: folded exactly when the exponent is an integer (and 0 is not raised to a negative
+        power), a node with these two arguments otherwise."""
+        if rnd.random() < 0.5:
+            base = const(REAL, rnd.choice([Fraction(0), Fraction(1), Fraction(4), Fraction(2), Fraction(-8), Fraction(9, 4), Fraction(1, 3)]))
+            ex = const(REAL, rnd.choice([Fraction(1, 2), Fraction(3, 2), Fraction(-1, 2), Fraction(5, 2), Fraction(1, 3), Fraction(2),
+                                         Fraction(0), Fraction(-1), Fraction(-2), Fraction(3)]))
+        else:
+            base = const(INT, rnd.choice([0, 1, 2, -3, 7]))
+            ex = const(INT, rnd.choice([0, 1, 2, 3, -1, -2]))
+        self.add_formula(e, ("POW", (), (base, ex)), rnd, rnd.choice(["plain", "mixed"]))
+        self.run.cls("rule:pow-of-constants")
+        if ex[1][1] != int(ex[1][1]):
+            self.run.cls("pow:fractional-exponent")
+
+    @rule(rnd=st.randoms(use_true_random=True), e=st.integers(0, 2))
     def derived(self, rnd, e):
         """A derived constructor applied to formulas that exist already is the very object of its documented expansion."""
         name = sorted(DERIVED)[rnd.randrange(len(DERIVED))]
@@ -706,6 +722,7 @@ def main():
     chk.floor("rule:normalize", 300)
     chk.floor("rule:rebuild", 300)
     chk.floor("rule:derived", 300)
+    chk.floor("pow:fractional-exponent", 50)
     chk.floor("derived:BVRepeat", 20)
     return chk.finish()
 
